@@ -26,8 +26,11 @@ type realTask struct {
 	deps      []string
 	durMs     int
 	exit      int
+	parseErr  bool // the script does not parse: a failure without an exit status, before any process starts
 	allowFail bool
 }
+
+func (t realTask) fails() bool { return t.exit != 0 || t.parseErr }
 
 func genRealGraph(t *rapid.T, maxTasks int, withFailures bool) []realTask {
 	n := rapid.IntRange(2, maxTasks).Draw(t, "nTasks")
@@ -42,7 +45,11 @@ func genRealGraph(t *rapid.T, maxTasks int, withFailures bool) []realTask {
 		}
 		if withFailures {
 			if rapid.IntRange(0, 3).Draw(t, "fails") == 0 {
-				rtk.exit = rapid.IntRange(1, 120).Draw(t, "exitCode")
+				if rapid.IntRange(0, 3).Draw(t, "parseError") == 0 {
+					rtk.parseErr = true
+				} else {
+					rtk.exit = rapid.IntRange(1, 120).Draw(t, "exitCode")
+				}
 			}
 			rtk.allowFail = rapid.IntRange(0, 3).Draw(t, "allowFailure") == 0
 		}
@@ -54,8 +61,12 @@ func genRealGraph(t *rapid.T, maxTasks int, withFailures bool) []realTask {
 func graphDef(vh, marker, ready string, ts []realTask, cont bool) definition.PipelineDef {
 	pd := definition.PipelineDef{Concurrency: 1, ContinueRunningTasksAfterFailure: cont, SourcePath: "gen", Tasks: map[string]definition.TaskDef{}}
 	for _, tk := range ts {
+		script := fmt.Sprintf("%s hang %s-%s --ready %s.%s --for %dms --exit %d", vh, marker, tk.name, ready, tk.name, tk.durMs, tk.exit)
+		if tk.parseErr {
+			script = "echo 'unterminated " + tk.name
+		}
 		pd.Tasks[tk.name] = definition.TaskDef{
-			Script:       []string{fmt.Sprintf("%s hang %s-%s --ready %s.%s --for %dms --exit %d", vh, marker, tk.name, ready, tk.name, tk.durMs, tk.exit)},
+			Script:       []string{script},
 			DependsOn:    tk.deps,
 			AllowFailure: tk.allowFail,
 		}
@@ -69,6 +80,9 @@ func describeGraph(ts []realTask) string {
 		s := fmt.Sprintf("%s<-%v %dms", tk.name, tk.deps, tk.durMs)
 		if tk.exit != 0 {
 			s += fmt.Sprintf(" exit%d", tk.exit)
+		}
+		if tk.parseErr {
+			s += " parse-error"
 		}
 		if tk.allowFail {
 			s += " af"
@@ -92,7 +106,7 @@ func failedAncestors(ts []realTask) map[string]bool {
 				continue
 			}
 			seen[d] = true
-			if (byName[d].exit != 0 && !byName[d].allowFail) || has(d, seen) {
+			if (byName[d].fails() && !byName[d].allowFail) || has(d, seen) {
 				return true
 			}
 		}
@@ -106,7 +120,7 @@ func failedAncestors(ts []realTask) map[string]bool {
 
 // TestC08Real: failure handling and verdict with the real task runner.
 func TestC08Real(t *testing.T) {
-	col := ev.Get("C08", "realrunner", "real TaskRunner and real processes: a generated graph of 2-5 tasks (each 'vhelper hang --for 5-90ms --exit N'), a quarter of the tasks failing, a quarter marked allow_failure, fail-fast or continue_running_tasks_after_failure; oracle from the final report and from which helper processes actually started: a task with a failed non-allowed ancestor never starts; continue => every task without such an ancestor runs to its end, job completed, not canceled, last error set; fail-fast => job ends with an error; plain success iff every task succeeded or failed under allow_failure; exit codes and errored flags of the tasks agree with the scripts; non-trivial = a non-allowed failure with a dependent task, or an allowed failure with a dependent; distinct by graph")
+	col := ev.Get("C08", "realrunner", "real TaskRunner and real processes: a generated graph of 2-5 tasks (each 'vhelper hang --for 5-90ms --exit N'), a quarter of the tasks failing (with an exit status, or - a quarter of those - with a script that does not parse, i.e. without exit status), a quarter marked allow_failure, fail-fast or continue_running_tasks_after_failure; oracle from the final report and from which helper processes actually started: a task with a failed non-allowed ancestor never starts; continue => every task without such an ancestor runs to its end, job completed, not canceled, last error set; fail-fast => job ends with an error; plain success iff every task succeeded or failed under allow_failure; exit codes and errored flags of the tasks agree with the scripts; non-trivial = a non-allowed failure with a dependent task, or an allowed failure with a dependent; distinct by graph")
 	vh := helper(t)
 	rapid.Check(t, func(rt *rapid.T) {
 		ts := genRealGraph(rt, 5, true)
@@ -133,10 +147,13 @@ func TestC08Real(t *testing.T) {
 		for _, tk := range ts {
 			started := readyCount(ready+"."+tk.name) > 0
 			tv := v.Tasks[tk.name]
+			if tk.parseErr {
+				started = tv.Status == "done" || tv.Status == "error" // no process ever starts; the report says whether the task was run
+			}
 			if blocked[tk.name] && started {
 				rt.Fatalf("[C08] %s: task %s ran although it depends on a failed task", desc, tk.name)
 			}
-			if tk.exit != 0 && !tk.allowFail {
+			if tk.fails() && !tk.allowFail {
 				if !blocked[tk.name] {
 					anyFail = true
 				}
@@ -148,7 +165,7 @@ func TestC08Real(t *testing.T) {
 					}
 				}
 			}
-			if tk.exit != 0 && tk.allowFail {
+			if tk.fails() && tk.allowFail {
 				for _, o := range ts {
 					for _, d := range o.deps {
 						if d == tk.name {
@@ -164,7 +181,13 @@ func TestC08Real(t *testing.T) {
 				if tk.exit != 0 && tk.allowFail && (tv.Errored || tv.Status == "error" || int(tv.ExitCode) != tk.exit) {
 					rt.Fatalf("[C08] %s: task %s fails under allow_failure (exit %d) but is reported status=%s errored=%v exitCode=%d", desc, tk.name, tk.exit, tv.Status, tv.Errored, tv.ExitCode)
 				}
-				if tk.exit == 0 && (tv.Errored || tv.Status != "done") {
+				if tk.parseErr && !tk.allowFail && (tv.Status != "error" || !tv.Errored) {
+					rt.Fatalf("[C08] %s: task %s has a script that does not parse but is reported status=%s errored=%v", desc, tk.name, tv.Status, tv.Errored)
+				}
+				if tk.parseErr && tk.allowFail && tv.Status == "error" {
+					rt.Fatalf("[C08] %s: task %s fails under allow_failure (script does not parse) but is reported with status error", desc, tk.name)
+				}
+				if !tk.fails() && (tv.Errored || tv.Status != "done") {
 					rt.Fatalf("[C08] %s: task %s succeeds but is reported status=%s errored=%v", desc, tk.name, tv.Status, tv.Errored)
 				}
 			}
